@@ -34,7 +34,8 @@ func checkC01(c InCase, w *watch) (f *report.Failure, accepted bool) {
 	if err != nil || e == nil {
 		return nil, false
 	}
-	checkMarker := !bytes.ContainsRune(c.Input, '%')
+	// a %! in the output can only be legitimate if the input itself contains %!
+	checkMarker := !bytes.Contains(bytes.ReplaceAll(c.Input, []byte(`\`), nil), []byte("%!"))
 	opName = "String"
 	str := e.String()
 	if checkMarker && strings.Contains(str, "%!") {
@@ -114,14 +115,14 @@ func TestC01(t *testing.T) {
 	st := report.New("C01", cfg)
 	defer st.Finish(t)
 	st.Rule("inputs: exhaustive token sequences over several alphabets (joined by spaces), rapid-generated printed query trees (all styles), random byte strings / hostile fragments / token soups, and large adversarial shapes; each x default-field option. Every case runs Parse, ToPostgres, ToParameterizedPostgres and, if accepted, String, %#v, json.Marshal under recover and a watchdog. Non-trivial = Parse accepted the input, or rejected it after at least one token (non-blank input); distinct by (input, default field).")
-	st.Assume("Go runtime asynchronous pre-emption lets the watchdog run while the code under test spins", "polynomial time is evidenced by the growth table, only hangs are decided", "the %! marker is only checked when the input contains no % byte")
+	st.Assume("Go runtime asynchronous pre-emption lets the watchdog run while the code under test spins", "polynomial time is evidenced by the growth table, only hangs are decided", "the %! marker is only checked when the input does not itself contain the two bytes %! (backslashes ignored)")
 	regress(t, st, "C01")
 	active := activeFindings(st, "C01")
 	_ = active
 	w := startWatch(st)
 	defer w.close()
 
-	sc := streamCfg{fullLen: 3, reducedLen: 4, focusLen: 5, trees: cfg.N(20000, 1000000), strings: cfg.N(30000, 2000000), dfs: []string{"", "dflt"}}
+	sc := streamCfg{fullLen: 3, reducedLen: 4, focusLen: 5, trees: cfg.N(12000, 1000000), strings: cfg.N(20000, 2000000), dfs: []string{"", "dflt"}}
 	if cfg.Thorough() {
 		sc.fullLen, sc.reducedLen, sc.focusLen = 4, 5, 7
 	}
@@ -147,7 +148,7 @@ func TestC01(t *testing.T) {
 	})
 
 	// (d) large adversarial shapes, with measured growth
-	units := 1000
+	units := 500
 	if cfg.Thorough() {
 		units = 4000
 	}
